@@ -9,7 +9,7 @@ EXTENDS AnkoContainers, Json, SequencesExt
 
 CONSTANTS Depth, Family, Emit, Mutant
 
-Vars == {"a", "b", "c", "m", "n", "ta", "st", "s", "t", "tm"}
+Vars == {"a", "b", "c", "m", "n", "ta", "st", "s", "t", "tm", "sv"}
 VARIABLES st, hist, last
 vars == <<st, hist, last>>
 
@@ -40,6 +40,7 @@ SliceOps ==
   \cup {Slice2(x, y, ij[1], ij[2]) : x \in {"b"}, y \in {"a", "b"}, ij \in {<<0, 2>>, <<1, 2>>, <<1, 3>>, <<0, 0>>, <<2, 1>>, <<0, 4>>, <<-1, 1>>, <<3, 3>>}}
   \cup {Slice2("a", "a", 1, 2), Slice2("c", "b", 0, 1)}
   \cup {Slice3("b", "a", 0, 1, 2), Slice3("b", "a", 0, 1, 5), Slice3("b", "a", 1, 2, 2), Slice3("c", "b", 0, 1, 1), Slice3("b", "a", 1, 1, 0)}
+  \cup {O("bindelem", "a", "sv", IntV(0), NilV, NilV, NilV, "", <<>>), O1("getvar", "sv")}
   \cup {O1("len", x) : x \in {"a", "b"}} \cup {InO(x, IntV(7)) : x \in {"a", "b"}} \cup {O1("callwrite", x) : x \in {"a", "b"}}
 MapOps ==
   {O1("mapnew", "m"), O1("mapnew", "n"), Alias("n", "m")}
@@ -61,6 +62,11 @@ TypedOps ==
   \cup {AppendO("ta", v) : v \in {IntV(5), StrV("s"), Flt19}} \cup {Read("ta", IntV(0)), Read("ta", IntV(2)), Read("b", IntV(0)), O1("len", "ta")}
   \cup {O1("tmapnew", "tm")} \cup {MapSet("tm", StrV("k"), v) : v \in {IntV(5), StrV("s"), Flt19}} \cup {MapSet("tm", ListKey, IntV(5))}
   \cup {MapGet_("tm", StrV("k")), MapGet_("tm", StrV("x")), MapGet_("tm", ListKey), MapDel_("tm", StrV("k")), MapDel_("tm", ListKey), O1("len", "tm")}
+  \cup {FieldSet("M", V("maplit0", 0, "", 0, 0, 0, 0)), FieldSet("M", V("maplit1", 0, "", 0, 0, 0, 0)), FieldSet("M", IntV(5)),
+        O("aliasfield", "st", "tm", NilV, NilV, NilV, NilV, "", <<>>),
+        O("fieldmapget", "st", "", StrV("k"), NilV, NilV, NilV, "", <<>>), O("fieldmapset", "st", "", StrV("k"), NilV, NilV, IntV(5), "", <<>>),
+        O("fieldmapset", "st", "", StrV("x"), NilV, NilV, StrV("s"), "", <<>>)}
+  \cup {O("bindelem", "ta", "sv", IntV(0), NilV, NilV, NilV, "", <<>>), O("bindfield", "st", "sv", NilV, NilV, NilV, NilV, "A", <<>>), O("bindfield", "st", "sv", NilV, NilV, NilV, NilV, "B", <<>>), O1("getvar", "sv")}
   \cup {O1("structnew", "st")} \cup {FieldSet(f, v) : f \in {"A", "B", "Z"}, v \in {IntV(5), StrV("z"), Flt19}} \cup {FieldGet(f) : f \in {"A", "B", "Z"}}
 Ops == CASE Family = "slice" -> SliceOps [] Family = "map" -> MapOps [] Family = "str" -> StrOps [] Family = "typed" -> TypedOps
          [] OTHER -> SliceOps \cup MapOps \cup StrOps \cup TypedOps
@@ -93,11 +99,13 @@ Spec == Init /\ [][Next]_vars
 
 \* what a script can observe: projections, storage sharing, which map variables are one map, map contents, fields
 MapVars == {"m", "n", "tm"}
-View == <<[n \in Vars |-> ProjVar(st, n)],
+View == <<[n \in Vars |-> ProjVar(st, n)], st.vars["sv"],
           [p \in {"a", "b", "c", "ta"} \X {"a", "b", "c", "ta"} |-> Share(st, p[1], p[2])],
           [n \in MapVars |-> IF st.vars[n].t \in {"map", "tmap"} THEN st.maps[st.vars[n].r] ELSE <<>>],
           st.vars["m"].t = "map" /\ st.vars["n"].t = "map" /\ st.vars["m"].r = st.vars["n"].r,
-          IF st.vars["st"].t = "struct" THEN st.structs[st.vars["st"].r] ELSE [A |-> NilV, B |-> NilV]>>
+          IF st.vars["st"].t = "struct" THEN st.structs[st.vars["st"].r] ELSE [A |-> NilV, B |-> NilV, M |-> NilV],
+          IF st.vars["st"].t = "struct" /\ st.structs[st.vars["st"].r].M.t = "tmap" THEN st.maps[st.structs[st.vars["st"].r].M.r] ELSE <<>>,
+          st.vars["st"].t = "struct" /\ st.vars["tm"].t = "tmap" /\ st.structs[st.vars["st"].r].M = st.vars["tm"]>>
 
 ----------------------------------------------------------------------------
 (* the statements of C10 on the design *)
@@ -107,12 +115,13 @@ WindowOK == \A n \in SliceNames : LET v == st.vars[n] IN IsSlice(v) => (0 <= v.l
 \* typed containers only ever hold values of their declared type
 TypedHolds == /\ \A n \in SliceNames : st.vars[n].t = "tslice" => \A q \in 1..st.vars[n].len : Elem(st, st.vars[n], q - 1).t = "int"
               /\ st.vars["tm"].t = "tmap" => \A q \in 1..Len(st.maps[st.vars["tm"].r]) : st.maps[st.vars["tm"].r][q][1].t = "str" /\ st.maps[st.vars["tm"].r][q][2].t = "int"
-              /\ st.vars["st"].t = "struct" => st.structs[st.vars["st"].r].A.t = "int" /\ st.structs[st.vars["st"].r].B.t = "str"
+              /\ st.vars["st"].t = "struct" => st.structs[st.vars["st"].r].A.t = "int" /\ st.structs[st.vars["st"].r].B.t = "str" /\ st.structs[st.vars["st"].r].M.t \in {"nil", "tmap"}
 Obs(s) == <<[n \in Vars |-> ProjVar(s, n)], [n \in MapVars |-> IF s.vars[n].t \in {"map", "tmap"} THEN s.maps[s.vars[n].r] ELSE <<>>],
-            IF s.vars["st"].t = "struct" THEN s.structs[s.vars["st"].r] ELSE [A |-> NilV, B |-> NilV]>>
+            IF s.vars["st"].t = "struct" THEN [f \in {"A", "B"} |-> s.structs[s.vars["st"].r][f]] ELSE [A |-> NilV, B |-> NilV],
+            IF s.vars["st"].t = "struct" /\ s.structs[s.vars["st"].r].M.t = "tmap" THEN s.maps[s.structs[s.vars["st"].r].M.r] ELSE <<>>>>
 \* an erroneous statement and a pure read leave everything unchanged
 ErrUnchanged == [][last'.res.k = "err" => Obs(st') = Obs(st)]_vars
-ReadsPure == [][last'.o.op \in {"read", "len", "in", "mapget", "fieldget"} => Obs(st') = Obs(st)]_vars
+ReadsPure == [][last'.o.op \in {"read", "len", "in", "mapget", "fieldget", "fieldmapget", "getvar"} => Obs(st') = Obs(st)]_vars
 \* an in-range store changes exactly the addressed element -- in every variable whose window covers that cell, and in no other
 StoreExact == [][(last'.o.op = "write" /\ last'.res.k = "ok" /\ IsSlice(st.vars[last'.o.x]) /\ last'.o.i.i < st.vars[last'.o.x].len) =>
                    LET x == st.vars[last'.o.x]  cell == x.off + last'.o.i.i + 1 IN
@@ -128,6 +137,8 @@ AliasIsReference == [][(last'.o.op = "alias" /\ last'.res.k = "ok") => st'.vars[
 \* a growing append moves only the appended-to variable to new storage: every other variable keeps contents, length and capacity
 GrowthLocal == [][(last'.o.op = "append" /\ last'.res.k = "ok" /\ IsSlice(st.vars[last'.o.x]) /\ st.vars[last'.o.x].len = st.vars[last'.o.x].cap) =>
                     \A n \in Vars \ {last'.o.x} : ProjVar(st', n) = ProjVar(st, n)]_vars
+\* a value read into a variable is a value: no later statement other than an assignment to that variable changes it
+BoundValuesStay == [][(last'.o.op \notin {"bindelem", "bindfield"}) => st'.vars["sv"] = st.vars["sv"]]_vars
 \* strings are values: a store through one variable is never seen through another
 StringsAreValues == [][\A n \in {"s", "t"} : (n # last'.o.x /\ st.vars[n].t = "cstr") => ProjVar(st', n) = ProjVar(st, n)]_vars
 \* map statements through one name are seen through every name of the same map and through no other map
